@@ -4,7 +4,7 @@ use proc_macro2::{Span, TokenStream};
 use quote::{format_ident, quote, ToTokens};
 use structmeta::{Flag, NameArgs, NameValue, Parse, StructMeta};
 use syn::{
-    parse::Parse, parse2, parse_quote, spanned::Spanned, token, Attribute, Data, DataEnum,
+    ext::IdentExt, parse::Parse, parse2, parse_quote, spanned::Spanned, token, Attribute, Data, DataEnum,
     DataStruct, DeriveInput, Error, Expr, ExprLit, Field, Fields, Ident, Index, ItemEnum,
     ItemStruct, Lit, Meta, Path, Result, Type, Variant,
 };
@@ -601,11 +601,12 @@ fn build_debug_expr(
             true => quote!(debug_struct),
             false => quote!(debug_tuple),
         };
+        let ident = ident.unraw();
         expr.extend(quote!(f.#debug_x(::core::stringify!(#ident))));
         for field in fields {
             if !field.hattrs.is_debug_ignore() {
                 let e = to_expr(field);
-                let member = field.member();
+                let member = field.field.ident.as_ref().map(|i| i.unraw());
                 expr.extend(match is_named {
                     true => quote! (.field(::core::stringify!(#member), #e)),
                     false => quote! (.field(#e)),
